@@ -12,6 +12,8 @@ LEVEL_TEXT = ("TLC checks, for every extent of the bounded domain (0..4 per axis
               "after every history of New/Set/Clear up to the bound, and the adaptor laws (shifts permute and compose, sub-boxes and slices name their cells, "
               "getValueRange is tight, clamping picks a nearest cell) in every reachable array state.  TLC then emits the complete tables (every coordinate<->index "
               "pair, every iteration / for_each sequence, every shift -ext..ext, clip box, 1..3 slices, compositions of two adaptors, every region's value range, "
+              "for every adaptor case the gets over the window -2..size+1 per axis (all sign combinations, plus +-(2^31-1) where no adaptor does arithmetic) and value ranges of "
+              "regions that start below 0 / end beyond the size, by what each adaptor's code defines there (sub-box / accessor forward to the clamping array, MultiSlice clamps z, a shift wraps), "
               "clamped gets, indices of extents whose products exceed 2^31, 2^32 and approach 2^64 including seeded random ones) which the driver evaluates on the real "
               "headers under ASan/UBSan; histories of the state graph are replayed on a real ActualArray3D with live adaptor views, and seeded random long "
               "executions of the real code (arrays, views, index tables of larger random extents) are validated by TLC against the trace specifications")
@@ -19,6 +21,7 @@ LEVEL_NOTE = ("bounded: map laws for extents 0..4 per axis (thorough 0..6), for_
               "regions with bounds 0..3 (-1..4); adaptors for every extent <= 3^3 (every shift -ext..ext, clip box, 1..3 slices, every region's range) and compositions over 3x2x2 "
               "(+ 2x3x1, 1x2x3, 2x2x3); state machine over 2x1x2 / 1x2x1 (/ 1x2x2) arrays with 2 values, histories of mutators up to K=4 (5); random parts: tables of extents "
               "<= 9x7x6, arrays <= 5x4x4 with 200-step executions; huge extents: fixed list + seeded random list, one-byte cells mapped lazily up to 2^33 cells. "
+              "Left unconstrained: a shifted array queried where coordinate + size + shift < 0 (C++ % negative) and coordinates near 2^31 through shift / sub-box (int overflow). "
               "Outside the statement and only recorded as notes: shifts more negative than the extent, getValueRange of empty regions, numElements() of MultiSlice over slices "
               "thicker than one plane, Array3DRepeater. Trusted: TLC, the driver's table order (x fastest) and limb conversion, g++/libstdc++, ASan/UBSan")
 TECHNIQUE = ("TLA+ functional specification with laws checked by TLC over the whole bounded domain + limb arithmetic for 64-bit indices; "
@@ -185,10 +188,33 @@ def rand_table_actions(rnd, n):
 
 
 # ---------------------------------------------------------------------------
+FLOOD = 150      # mismatches in one chunk after which the rest of that replay is skipped (the verdict is already VIOLATION)
+
+
+def replay_chunked(chk, exe, hs, tag, sig_prefix, isolate, chunk):
+    """adtcheck.replay in chunks.  On the unchanged tree every chunk runs; when a change of the code makes
+    hundreds of cases crash (each crash costs a fork and a sanitizer report), the replay stops after the first
+    chunk with more than FLOOD mismatches - all of them are reported - instead of taking half an hour."""
+    n = 0
+    wall = 0.0
+    done = 0
+    for i in range(0, len(hs), chunk):
+        part = hs[i:i + chunk]
+        k, w = adtcheck.replay(chk, exe, part, tag, sig_prefix, isolate=isolate)
+        n += k
+        wall += w
+        done += len(part)
+        if k > FLOOD and done < len(hs):
+            chk.log("%s: %d of %d cases of this chunk mismatch - skipping the remaining %d cases of this replay" % (tag, k, len(part), len(hs) - done))
+            chk.cov.setdefault("replays_cut_short", []).append({"tag": tag, "replayed": done, "of": len(hs)})
+            break
+    return n, wall, done
+
+
 def replay_cases(chk, exe, cases, tag, isolate=200):
     hs = [[c] for c in cases]
-    chk.count_actions(hs)
-    n, wall = adtcheck.replay(chk, exe, hs, tag, SIG, isolate=isolate)
+    n, wall, done = replay_chunked(chk, exe, hs, tag, SIG, isolate, 1500)
+    chk.count_actions(hs)      # what was generated (a replay cut short by a flood of mismatches already is a VIOLATION)
     return n, wall
 
 
@@ -254,7 +280,10 @@ def model_checks(chk, quick):
         r = tla.run_tlc(os.path.join(SPEC, "IndexMapsMC.tla"), os.path.join(SPEC, neg), workers=4, timeout=300)
         if not r.violated:
             raise tla.InfraError("negative control %s was not violated: the laws are vacuous" % neg)
-    chk.cov["negative_controls_violated_as_expected"] = 2
+    r = tla.run_tlc(os.path.join(SPEC, "Array3DLaws.tla"), os.path.join(SPEC, "Array3DLaws_neg.cfg"), workers=4, timeout=300)
+    if not r.violated:
+        raise tla.InfraError("negative control Array3DLaws_neg.cfg was not violated: the out-of-extent laws are vacuous")
+    chk.cov["negative_controls_violated_as_expected"] = 3
     adtcheck.model_check(chk, SPEC, "LimbsMC", "LimbsMC.cfg", workers=4, what="limb arithmetic laws (ASSUMEs)")
     adtcheck.model_check(chk, SPEC, "Array3DMC", "Array3DMC%s.cfg" % s, what="get(c) = value last set at clamp(c) after every history of New/Set/Clear up to K")
     adtcheck.model_check(chk, SPEC, "Array3DLaws", "Array3DLaws%s.cfg" % s, what="adaptor laws in every reachable array state")
@@ -427,7 +456,7 @@ def _run_machine(chk, quick, rnd, s, exe, gen_result):
     chk.count_actions(hs)
     chk.require_actions(["New", "Set", "Clear", "Get", "Range", "RangeWhole", "ViewShift", "ViewSub", "ViewAcc", "ViewSlices"])
     chk.cov["generation_Array3D"] = info
-    n, wall = adtcheck.replay(chk, exe, hs, "c17-adt", SIG + "/ActualArray3D", isolate=500)
+    n, wall, _ = replay_chunked(chk, exe, hs, "c17-adt", SIG + "/ActualArray3D", 500, 3000)
     chk.log("ActualArray3D + views: %d histories replayed (%d mismatching) in %.1fs" % (len(hs), n, wall))
     chk.cov["distinct_nontrivial"] += adtcheck._nontrivial_distinct(hs, MUT)
     chk.add_sample({"kind": "history", "object": "ActualArray3D", "steps": hs[len(hs) // 2][:6]})
